@@ -15,12 +15,12 @@ import (
 // every lease starts at harness time 0
 type hLeaseStore struct {
 	queue.Store
-	d        *PushDispatcher
-	targets  []TargetConfig
-	elapsed  *time.Duration
-	reqs     []queue.DequeueRequest
-	settled  []time.Duration // harness time at which each lease was settled (ack/nack/dead)
-	stopped  bool
+	d       *PushDispatcher
+	targets []TargetConfig
+	elapsed *time.Duration
+	reqs    []queue.DequeueRequest
+	settled []time.Duration // harness time at which each lease was settled (ack/nack/dead)
+	stopped bool
 }
 
 func (s *hLeaseStore) Dequeue(req queue.DequeueRequest) (queue.DequeueResponse, error) {
@@ -38,10 +38,10 @@ func (s *hLeaseStore) Dequeue(req queue.DequeueRequest) (queue.DequeueResponse, 
 	}
 	return queue.DequeueResponse{Items: items}, nil
 }
-func (s *hLeaseStore) settle() error { s.settled = append(s.settled, *s.elapsed); return nil }
-func (s *hLeaseStore) Ack(string) error                 { return s.settle() }
-func (s *hLeaseStore) Nack(string, time.Duration) error { return s.settle() }
-func (s *hLeaseStore) MarkDead(string, string) error    { return s.settle() }
+func (s *hLeaseStore) settle() error                             { s.settled = append(s.settled, *s.elapsed); return nil }
+func (s *hLeaseStore) Ack(string) error                          { return s.settle() }
+func (s *hLeaseStore) Nack(string, time.Duration) error          { return s.settle() }
+func (s *hLeaseStore) MarkDead(string, string) error             { return s.settle() }
 func (s *hLeaseStore) RecordAttempt(queue.DeliveryAttempt) error { return nil }
 
 type hSlowDeliverer struct {
